@@ -188,6 +188,7 @@ class Result:
         self.functions = set()
         self.replays = []       # dicts
         self.vars = 0
+        self.steps = 0
 
 
 class Ctx:
@@ -286,7 +287,7 @@ class Ctx:
             self._memlock.notify_all()
 
     def cbmc_cmd(self, q, gb, extra=()):
-        cmd = ["cbmc", gb, "--function", "harness", "--json-ui",
+        cmd = ["cbmc", gb, "--function", "harness", "--json-ui", "--verbosity", "8",
                "--unwinding-assertions", "--drop-unused-functions",
                "--no-malloc-may-fail", "--signed-overflow-check",
                "--undefined-shift-check", "--conversion-check" if False else "--div-by-zero-check"]
@@ -378,6 +379,9 @@ class Ctx:
                 mm = re.match(r"Runtime decision procedure: ([0-9.]+)s", t)
                 if mm:
                     res.solver_s += float(mm.group(1))
+                mm = re.match(r"size of program expression: (\d+) steps", t)
+                if mm:
+                    res.steps = max(res.steps, int(mm.group(1)))
                 mm = re.match(r"(\d+) variables, (\d+) clauses", t)
                 if mm:
                     res.vars = max(res.vars, int(mm.group(1)))
